@@ -69,6 +69,8 @@ MEMBERS = {
     "classcell": "    def cc(self):\n        return __class__.__name__\n",
     "dunder": "    def __len__(self):\n        return 3\n    def __eq__(self, o):\n        return True\n    __hash__ = None\n",
     "mangle": "    __priv = 7\n    def getpriv(self):\n        return self.__priv\n",
+    "memberdefault": "    LIMIT = 3\n    def md(self, a=LIMIT, *, size=LIMIT + 1):\n        return a, size\n    LIMIT = 9\n",
+    "decohook": "    def traced(fn):\n        def w(*a, **k):\n            return fn(*a, **k)\n        return w\n    @traced\n    def __init_subclass__(cls, **kw):\n        super().__init_subclass__(**kw)\n        cls.traced_seen = True\n    @staticmethod\n    def __new__(cls, *a):\n        return object.__new__(cls)\n    del_me = traced\n",
     "closure": "    def cl(self):\n        return ENCL\n",
     "enclparam": "    cap = PARAM\n    def cl2(self):\n        return PARAM, self.cap\n",
 }
@@ -84,7 +86,7 @@ def obs(c):
         return ('not a class', repr(c)[:40])
     out = {'vars': sorted((k, kind(v)) for k, v in vars(c).items() if k not in skip), 'mro': [b.__name__ for b in c.__mro__], 'meta': type(c).__name__}
     i = c()
-    for name in ('m','s','c','p','lam','who','cc','getpriv','cl','cl2'):
+    for name in ('m','s','c','p','lam','who','cc','getpriv','cl','cl2','md'):
         if hasattr(c, name):
             a = getattr(i, name)
             try: out['call:'+name] = a() if callable(a) else a
@@ -96,7 +98,7 @@ def obs(c):
     if hasattr(c, 'In'): out['nested'] = (c.In().zm(), c.In.__name__)
     if hasattr(c, '__len__'): out['len'] = (len(i), i == 5)
     class Sub(c): pass
-    out['sub'] = (getattr(Sub, 'sub_seen', None), getattr(Sub, 'tag', None), Sub().who() if hasattr(Sub, 'who') else None,
+    out['sub'] = (getattr(Sub, 'sub_seen', None), getattr(Sub, 'traced_seen', None), getattr(Sub, 'tag', None), Sub().who() if hasattr(Sub, 'who') else None,
                   Sub.c() if hasattr(Sub, 'c') else None, Sub().cc() if hasattr(Sub, 'cc') else None)
     return sorted(out.items())
 '''
@@ -167,8 +169,11 @@ def main(tier, seed, collect=None):
     mk = 1 if tier == "quick" else 2
     k = 64 if tier == "quick" else 512
     total = core.run_shards(run_shard, [(mk, r, k, core.ALL_CFG) for r in range(k)], seed=seed, pid=PID)
+    other_hosts = core.run_on_hosts(PID, ["py310", "py311", "py313"], "quick", seed, total) if tier == "thorough" else []
+
     c = total.c
     cov = {
+        "converter_hosts": [core.HOST] + other_hosts,
         "evaluations": c["executions"],
         "distinct_nontrivial": c["programs_in_scope"],
         "rule": "every member of the skeleton product is one program (distinct key); non-trivial = CPython runs it without raising, "
